@@ -439,6 +439,32 @@ func c03MsgMarshal(a []string) string {
 // <bytes> <specific>   (the second token is for the model only)
 func c03MsgUnmarshal(a []string) string {
 	m := message.NewMessage()
+	if len(a) >= 3 {
+		// what happened to this Message object before: "u:<hex>" = an earlier Unmarshal,
+		// "m:<reply>:<code>" = a command of that kind was added and the message marshalled
+		func() {
+			defer func() { recover() }()
+			h := strings.SplitN(a[2], ":", 3)
+			switch h[0] {
+			case "u":
+				_ = m.Unmarshal(exact(unhx(h[1])))
+			case "m":
+				code, _ := strconv.Atoi(h[2])
+				var c command_interface.CommandInterface
+				var err error
+				if h[1] == "1" {
+					c, err = commands.CreateResponseCommand(codes.CommandCode(code))
+				} else {
+					c, err = commands.CreateRequestCommand(codes.CommandCode(code))
+				}
+				if err == nil {
+					c.Init()
+					m.AddCommand(c)
+					_, _ = m.Marshal()
+				}
+			}
+		}()
+	}
 	if err := m.Unmarshal(exact(unhx(a[0]))); err != nil {
 		return "err"
 	}
@@ -746,6 +772,24 @@ func genC03(r *Rng, tier string) []Case {
 			c.Tag = tag + "(command-specific panic: tie only)"
 		}
 		cs = append(cs, c)
+	}
+	// the same bytes decoded into a Message object with a history (an earlier Unmarshal of the opposite
+	// kind, or a command of the opposite kind added and marshalled): the result depends on the bytes only
+	for code := 0; code < 256; code++ {
+		for reply := 0; reply < 2; reply++ {
+			if !thorough && code%2 == 1 {
+				continue
+			}
+			b := append(c03HeaderBytes(rx, uint8(code), reply == 1), 0, 0, 0)
+			sp := c03Specific(b)
+			if sp == "panic" {
+				continue
+			}
+			pre := append(c03HeaderBytes(rx, uint8(code), reply == 0), 0, 0, 0)
+			for _, hist := range []string{"u:" + hx(pre), fmt.Sprintf("m:%d:%d", 1-reply, code)} {
+				cs = append(cs, Case{Op: "c03.msg.unmarshal", MArgs: []string{hx(b), sp, hist}, SArgs: []string{hx(b), sp, hist}, Tag: "dispatch.reused-message"})
+			}
+		}
 	}
 	for code := 0; code < 256; code++ {
 		for reply := 0; reply < 2; reply++ {
